@@ -1589,3 +1589,49 @@ def k18_tree_searcher_purity(ctx) -> None:
             ctx.ok("K18", f"{fi.qualname} does not modify the dictionary it is given" + (" (works on a deep copy)" if deep else ""))
     if n < 6:
         ctx.floor("K18", 99)
+
+
+def k23_random_tree_marks_when_expanded(ctx) -> None:
+    from ..core import pattern as PT
+    """`random_proof_tree` walks breadth first; a class is marked as seen when its node is taken
+    from the queue (and then expanded with the rule drawn for it), and every child node it
+    makes is queued.  Marked when *queued*, a class that occurs twice among the children gets
+    two nodes of which only one is expanded by the drawn rule while the other draws a rule of
+    its own: one class, two different rules in one tree."""
+    P = ctx.P
+    fi = P.need_function("tree_searcher", "random_proof_tree")
+    f = fi.node
+    ctx.analysed(fi)
+    pops = [(t.id, v) for n in walk_local(f) for t, v in [PT.assign_value(n)] if isinstance(t, ast.Name) and isinstance(v, ast.Call) and isinstance(v.func, ast.Attribute)
+            and v.func.attr in ("popleft", "pop")]
+    if len(pops) != 1:
+        raise AnalysisError("K23: random_proof_tree no longer takes one node from its queue per round")
+    v, popc = pops[0]
+    q = norm(popc.func.value)
+    seen_sets = {c.func.value.id for c in walk_local(f) if isinstance(c, ast.Call) and isinstance(c.func, ast.Attribute) and c.func.attr in ("add", "update")
+                 and isinstance(c.func.value, ast.Name) and c.func.value.id != q}
+    marks = [c for c in walk_local(f) if isinstance(c, ast.Call) and isinstance(c.func, ast.Attribute) and c.func.attr in ("add", "update") and isinstance(c.func.value, ast.Name)
+             and c.func.value.id in seen_sets]
+    if not marks:
+        raise AnalysisError("K23: random_proof_tree no longer marks the classes it has expanded")
+    for c in marks:
+        if c.func.attr == "add" and c.args and norm(c.args[0]) == f"{v}.label":
+            ctx.ok("K23", "a class is marked as seen when its own node is taken from the queue")
+        else:
+            ctx.violation("K23", c, f"random_proof_tree marks `{norm(c.args[0])[:40] if c.args else '?'}` as seen, not the class of the node in hand (`{v}.label`): classes are "
+                          "marked when they are queued, so a class that occurs twice among the children of one rule is expanded once and re-drawn once")
+    for s0 in seen_sets:
+        for d in D.definitions(f).get(s0, []):
+            if d[1] is not None and not ((isinstance(d[1], ast.Call) and norm(d[1].func) == "set" and not d[1].args) or (isinstance(d[1], (ast.Set,)) and not d[1].elts)):
+                ctx.violation("K23", d[0], f"random_proof_tree starts with `{s0} = {norm(d[1])[:40]}`: nothing is seen before it has been expanded")
+    exts = [c for c in walk_local(f) if isinstance(c, ast.Call) and isinstance(c.func, ast.Attribute) and norm(c.func.value) == q and c.func.attr in ("extend", "append", "extendleft")]
+    kids = [t for n in walk_local(f) for t in (n.targets if isinstance(n, ast.Assign) else []) if isinstance(t, ast.Attribute) and t.attr == "children"]
+    if not exts or not kids:
+        raise AnalysisError("K23: random_proof_tree no longer queues the children it attaches")
+    for c in exts:
+        a0 = c.args[0] if c.args else None
+        if isinstance(a0, ast.Name):
+            ctx.ok("K23", "every child node attached to the tree is queued")
+        else:
+            ctx.violation("K23", c, f"random_proof_tree queues `{norm(a0)[:60] if a0 is not None else '?'}`, not all the child nodes it attaches: a child that is left out is never "
+                          "expanded, although its node is in the tree")
